@@ -132,6 +132,11 @@ def classify_detector(e, selfname):
 
 def check(ctx):
     repo = ctx.repo
+    from . import generic
+    generic.lossy_calls(ctx, generic.module_functions(repo, "dataiter.vector"),
+                        "replace_na replaces exactly the missing positions")
+    generic.memo_projection(ctx, ("dataiter.vector", "dataiter.util", "dataiter.dtypes"),
+                            "na_value / na_dtype are the missing value of the vector's own dtype")
     for r, t in (("SIB-9", "is_na / na_dtype / na_value agree per dtype kind with each other and with the statement"),
                  ("SIB-pred", "NA substitution predicate == type-inference ignore predicate; inference decision list"),
                  ("NA-flow", "consumers obtain missing positions only through is_na"),
@@ -241,6 +246,22 @@ def check(ctx):
            + (f" = {[norm(d.value) for d in _defs(ut, uit.id, ucomp[0]) if d.value is not None]}" if isinstance(uit, ast.Name) else "")
            + ", not the whole sequence: a sequence whose leading elements are all missing (or whose later elements have another type) "
              "gets the missing value and dtype of the wrong type", clause="the missing value of the inferred type")
+    # every result of unique_types comes from the filtered scan: a return that bypasses the filter counts the types of
+    # missing elements too (a NumPy float NaN is a float subclass instance, not the exact type float)
+    from ..forms import expand as _expand_ut
+    for r_ in [n for n in body_nodes(ut.node) if isinstance(n, ast.Return) and n.value is not None]:
+        e_ = _expand_ut(ut, r_.value, r_)
+        through = any(n is ucomp[0] or ast.dump(n) == ast.dump(ucomp[0]) for n in ast.walk(e_))
+        if through:
+            continue
+        guard_ = [t for k, t in facts_at(ut, r_) if "isinstance(" in t and "float" in t]
+        okr_ = bool(guard_)
+        ctx.ob("SIB-pred", ut, f"return {norm(r_.value)} bypasses the missing-value filter", r_, okr_,
+               f"taken only under {guard_[:1]}" if okr_ else
+               f"{norm(e_)[:70]} is returned without the None/NaN filter (path conditions: "
+               f"{[t for k, t in facts_at(ut, r_) if not t.startswith('iter:')][:2]}): a NaN given as numpy.float64 is not of the exact type "
+               f"float, so its type is reported and a sequence of dates with such a NaN is no longer inferred as dates",
+               clause="maps None and NaN to the missing value of the inferred type")
     facts = facts_at(std, comp[0])
     guards = [(k, t) for k, t in facts if " in seq" in t or "any(" in t or "None in" in t]
     ctx.ob("SIB-pred", std, "substitution is unconditional", comp[0], not guards,
